@@ -9,6 +9,7 @@ import (
 	"runtime"
 	"strconv"
 
+	"verif/harness/internal/behave"
 	"verif/harness/internal/report"
 	"verif/harness/internal/scen"
 	"verif/harness/internal/tool"
@@ -91,5 +92,8 @@ func main() {
 		os.Exit(replay(e, os.Args[3]))
 	}
 	c.fn(e)
+	if behave.PrivateCache != "" {
+		_ = os.RemoveAll(behave.PrivateCache)
+	}
 	os.Exit(e.Rep.Finish())
 }
